@@ -214,7 +214,7 @@ def p_C20(res, facts, tier):
 
 
 PROPS = {
-    'C20': dict(undecided='nothing', fn=p_C20, level='proof', explanation='Each clamping conversion is evaluated on the partition {below, inside, above, NaN} of all f32 inputs (+-inf included in the outer parts): result is the bound / the input / the bound / a bound; Note and channel clamps on {<= limit, > limit}; the newtypes are constructed only inside their validating constructors (or from in-range constants) and their field is private; the envelope stores exactly the converted value. Thorough tier adds compile-fail witnesses (private constructor / field).'),
+    'C20': dict(undecided='nothing', fn=p_C20, level='proof', explanation='Each clamping conversion is evaluated on the partition {below, inside, above, NaN} of all f32 inputs (+-inf included in the outer parts): result is the bound / the input / the bound / a bound, and for an out-of-range argument the whole converted object (every field, including quantities cached beside the clamped value) equals the object the bound itself converts to; Note and channel clamps on {<= limit, > limit}; the newtypes are constructed only inside their validating constructors (or from in-range constants) and their field is private; the envelope stores exactly the converted value. Thorough tier adds compile-fail witnesses (private constructor / field).'),
     'C17': dict(undecided='panics inside trusted container code (heapless)', fn=p_C17, level='proof', explanation='Every public entry point of the six modules is analysed from abstract pre-states over the documented (finite) argument ranges (parser-state x byte-class partitions for MIDI); every Assert terminator and explicit panic met becomes an obligation, all are discharged; all reachable Assert sites are visited (coverage floor); every loop is driven by a bounded iterator. Class invariants are an assume/guarantee device: accumulator <= mask, LFO increment <= 2^T, scale mask in [1,4095] and saturated ribbon counters are needed on the pinned tree; the others (gate <=> held list non-empty, edge latches, note numbers <= 127, pressing => buffer full, stored envelope increment bounded) are assumed only when some panic obligation cannot be discharged without them, and whatever is assumed is re-established on every post-state (R-INV). Termination of the envelope: legal order of the phases on tick, no missed wrap, strict progress while staying, increment >= 1, the unchecked addition fits (how long a phase lasts is the statement of C02 and is not judged). R-PANIC is the only judge of panicking paths: the other properties are decided on the returning paths.'),
     'C15': dict(undecided='nothing', fn=p_C15, level='proof', explanation='Effect summary of poll() over (in range?) x (settling count reached?) x (buffer full?) x (pressing, just_pressed, just_released): every out-of-range path releases, zeroes both progress counters and latches the release edge; in-range paths advance the counters by one (saturating), store the sample iff settled, and raise the press exactly when the fill counter reaches the capacity; getters return and clear. The run-length statement follows by induction on the counters.'),
     'C16': dict(undecided='the exact f32 value of the mean; heapless ring order is trusted', fn=p_C16, level='other', explanation='current_val is written only in the buffer-full block as E(a), a = sum(take(oldest_ordered(buffer after this write), N-discard))/(N-discard) (container terms), retained on every other path; value() = current_val/boundary; E is monotone with 0 <= E(a) <= a on the parameter box; counters restart after every out-of-range sample so no earlier press contributes; constructor discard count agrees with the capacity helper (N = main+discard+1). heapless ring order is trusted; the exact f32 mean is not decided.'),
